@@ -1,6 +1,8 @@
 import H264.C12
 import H264.EscapeNoSC
 import H264.NalSrcProofs
+import H264.EndToEnd
+import H264.Sps
 /-! # C12 — End to end: a chunked Annex B stream parses like its NALs parsed in isolation
 
 Composition of C01 (segmentation), C18 (shapes), C08 (accumulation), C02/C15 (what a reader drains from a chunked NAL).
@@ -34,5 +36,45 @@ theorem parse_inside_equals_parse_alone (chunks : List (List UInt8)) (hne : ∀ 
   rw [NalSrc.srcOfNal_valid chunks true hne hv,
       NalSrc.srcOfNal_valid [chunks.flatten] true (by intro c hc; simp at hc; rw [hc]; exact hnn) (by simpa using hv)]
   simp
+
+/-- **the property, end to end**: for any sequence of well-formed NAL units free of forbidden byte sequences,
+serialised as an Annex B stream and pushed in arbitrary pieces through the accumulating reader, the bit sources that
+parsers obtain inside the handler from the complete invocations are, in order, exactly the bit sources of the NAL
+units taken alone from contiguous buffers (composition of C01, C18, C08 and of the chunk-independence of C02/C15) -/
+theorem bit_sources_inside_handler_are_those_of_the_nals_alone (nals : List (Nat × List UInt8))
+    (hok : ∀ p ∈ nals, NalOk p.2) (hvalid : ∀ p ∈ nals, (Rbsp.unesc (p.2.drop 1)).2 = true)
+    (chunks : List (List UInt8)) (hcut : chunks.flatten = serialise nals) :
+    let calls := (pushAll St.start chunks).2 ++ (AnnexB.reset (pushAll St.start chunks).1).2
+    let tr := (Accum.run Accum.init (stepsOf calls) []).2
+    (tr.filter (·.complete)).map invSrc = nals.map (fun p => NalSrc.srcOfNal [p.2] true) :=
+  end_to_end nals hok hvalid chunks hcut
+
+/-- … for streams produced by an encoder: units given as (extra zeros, header byte ≠ 0, RBSP ending in its trailing
+bits), emulation prevention applied; any function of the bit source — in particular each model parser with the
+context folded from the earlier results — returns inside the handler what it returns on `header :: escape rbsp` alone -/
+theorem parsing_inside_handler_equals_parsing_alone {β} (parse : Bits.Src → β) (units : List (Nat × UInt8 × List UInt8))
+    (hu : ∀ u ∈ units, u.2.1 ≠ 0 ∧ ∃ x, x ≠ 0 ∧ u.2.2.getLast? = some x)
+    (chunks : List (List UInt8))
+    (hcut : chunks.flatten = serialise (units.map fun u => (u.1, u.2.1 :: Rbsp.escape u.2.2))) :
+    let calls := (pushAll St.start chunks).2 ++ (AnnexB.reset (pushAll St.start chunks).1).2
+    let tr := (Accum.run Accum.init (stepsOf calls) []).2
+    (tr.filter (·.complete)).map (fun i => parse (invSrc i)) =
+      units.map (fun u => parse (NalSrc.srcOfNal [u.2.1 :: Rbsp.escape u.2.2] true)) :=
+  end_to_end_escaped parse units hu chunks hcut
+
+/-- the SPS parser as an instance -/
+theorem sps_inside_handler (units : List (Nat × UInt8 × List UInt8))
+    (hu : ∀ u ∈ units, u.2.1 ≠ 0 ∧ ∃ x, x ≠ 0 ∧ u.2.2.getLast? = some x)
+    (chunks : List (List UInt8))
+    (hcut : chunks.flatten = serialise (units.map fun u => (u.1, u.2.1 :: Rbsp.escape u.2.2))) :
+    let calls := (pushAll St.start chunks).2 ++ (AnnexB.reset (pushAll St.start chunks).1).2
+    let tr := (Accum.run Accum.init (stepsOf calls) []).2
+    (tr.filter (·.complete)).map (fun i => Sps.parseSps (invSrc i)) =
+      units.map (fun u => Sps.parseSps (NalSrc.srcOfNal [u.2.1 :: Rbsp.escape u.2.2] true)) :=
+  end_to_end_escaped Sps.parseSps units hu chunks hcut
+
+/-- non-vacuity: a unit `67 | 42 80` (header 0x67, RBSP ending in a non-zero byte) satisfies the hypothesis -/
+example : (0x67 : UInt8) ≠ 0 ∧ ∃ x : UInt8, x ≠ 0 ∧ ([0x42, 0x80] : List UInt8).getLast? = some x :=
+  ⟨by decide, 0x80, by decide, rfl⟩
 
 end C12
